@@ -5,6 +5,9 @@
 (* scaled integer plus a deviation sign (see FNum below).                  *)
 EXTENDS Integers, Sequences, FiniteSets, TLC, SequencesExt, FiniteSetsExt, Functions
 
+(* the height of a non-detection (NaN) in rows: outside the physical range (-100000, 100000) ft *)
+NaNH == -1000000
+
 Min2(a, b) == IF a <= b THEN a ELSE b
 Max2(a, b) == IF a >= b THEN a ELSE b
 Abs(a)     == IF a < 0 THEN -a ELSE a
